@@ -9,6 +9,7 @@ CONFIG world ops                                    PRE-JOIN world ops
   cmsg <idx> <len>        handlePluginMessage          pmsg <idx> <len>       handlePluginMessage
   cburst <idx> <n> <len>  n messages                   pburst <idx> <n> <len>
   cflush <s>              flushQueuedPluginMessagesTo  pflush                 FlushQueuedPluginMessages
+  cflushrace <s> <idx> <len>  … with one more client message handled while the flush is writing
   clogin <s> cfg|play     login success of backend s   pjoin <d>              handleBackendJoinGame(d)
                           with the client in CONFIG    pdeact                 Deactivated
                           (→ flush) or in PLAY (→ no   pcur/pinfl <b|->, pconn <b> <0|1>
@@ -153,6 +154,21 @@ def step (w : World) (c : Case) : World × String × String :=
       let (c', outs, err) := cflush w.c s
       ({ w with c := c' }, cfgLine c' outs err, cfgVerdict w.c c' c.impl)
     | none => (w, "bad-op", "-"))
+  | "cflushrace", [s, i, len] => (match s.toNat?, i.toNat?, len.toNat? with
+    | some s, some i, some len =>
+      if i ≠ w.c.next then (w, "bad-idx", "-") else
+      -- the flush's `h.mu` section is atomic, so a client message arriving while the flush is writing is
+      -- handled after it: flush, then the message
+      let (c1, o1, err) := cflush w.c s
+      let (c2, o2) := crun c1 (cmsgActs len)
+      let v := match parseImpl c.impl with
+        | none => "viol:unparsable"
+        | some im =>
+          -- `config_ready_backend_has_nothing_queued`: with `s` ready nothing addressed to `s` may wait
+          if !err && im.qlen > 0 && c1.target = some s && c2.q.queue.isEmpty then "viol:stranded-after-flush"
+          else cfgVerdict w.c c2 c.impl
+      ({ w with c := c2 }, cfgLine c2 (o1 ++ o2) err, v)
+    | _, _, _ => (w, "bad-op", "-"))
   | "clogin", [s, mode] => (match s.toNat? with
     | some s =>
       if mode = "cfg" then
